@@ -31,6 +31,7 @@ def _random_int(c):
     c.raises()
     c.returns("int")
     c.ensures("in-range", lambda r, post: z3.And(M.is_IntV(r), M.int_of(a) <= M.ival(r), M.ival(r) <= M.int_of(b)))
+    c.reproducible()
 
 
 @contract(RND, "Random.random_choice", props=("C01", "C17"), group="generator")
@@ -45,9 +46,11 @@ def _random_choice(c):
     c.raises()
     j = z3.Int("cj")
     c.ensures("member", lambda r, post: z3.And(
-        z3.Implies(isstr, z3.And(M.is_StrV(r), z3.Length(M.sval(r)) == 1, z3.Contains(M.sval(s), M.sval(r)))),
+        z3.Implies(isstr, z3.And(M.is_StrV(r), z3.Length(M.sval(r)) == 1, z3.Contains(M.sval(s), M.sval(r)),
+                                 M.chin(M.sval(s), M.sval(r)))),
         z3.Implies(z3.Not(isstr),
                    z3.Exists([j], z3.And(0 <= j, j < M.llen(s), r == M.lat(s, j)), patterns=[M.lat(s, j)]))))
+    c.reproducible()
 
 
 @contract(RND, "Random.random_str", props=("C01", "C17"), group="generator")
@@ -61,6 +64,7 @@ def _random_str(c):
     ln = z3.If(M.int_of(n) > 0, M.int_of(n), 0)
     c.ensures("shape", lambda r, post: z3.And(M.is_StrV(r), z3.Length(M.sval(r)) == ln,
                                               M.all_in(M.sval(r), M.sval(a))))
+    c.reproducible()
 
 
 @contract(RND, "Random.random_float", props=("C01", "C17"), group="generator")
@@ -74,6 +78,7 @@ def _random_float(c):
     c.raises()
     c.returns("float")
     c.ensures("in-range", lambda r, post: z3.And(M.is_FloatV(r), M.fval(a) <= M.fval(r), M.fval(r) <= M.fval(b)))
+    c.reproducible()
     c.known_region("C01-float-precision-grid", "Random.random_float:ensures[in-range]", p != M.NilV)
     c.known_region("C01-float-precision-grid", "call:Random.random_int", p != M.NilV)
     c.known_region("C01-float-precision-grid", "Random.random_float:raises", p != M.NilV)
@@ -108,6 +113,10 @@ def gen_visit(cls: str):
             c.requires(z3.Implies(S.declared(Sx, "pattern"), regex_gen_ok(M.sval(S.prop(Sx, "pattern")))),
                        "pattern-supported")
         c.raises(props=("C01",))
+        if cls == "StrSchema":
+            c.known_region("C09-negated-class-exhausts-alphabet", "raises[IndexError]", z3.BoolVal(True))
+        # C17: unfixed uuid4 / datetime / date draw from the OS and the clock and are exempt
+        c.reproducible(when=S.declared(Sx, "value") if cls in ("UUID4Schema", "DateTimeSchema", "DateSchema") else None)
         def goal(r, post):
             g = S.conforms_def(ct, cls, Sx, r)
             if cls == "ListSchema":
@@ -148,18 +157,6 @@ for _m, _cls in [("visit_none", "NoneSchema"), ("visit_bool", "BoolSchema"), ("v
     contract(GEN, f"Generator.{_m}", props=("C01", "C17", "C07"), group="generator")(gen_visit(_cls))
 
 
-@contract("d42/generation/_regex_generator.py", "RegexGenerator.generate", props=("C09",), trusted=True,
-          note="assumed until C09 is built: for a pattern in the supported grammar the result matches it")
-def _regex_generate(c):
-    c.declare("self", "RegexGenerator")
-    p = c.sym("pattern")
-    c.requires(M.is_StrV(p))
-    c.requires(regex_gen_ok(M.sval(p)), "pattern-supported")
-    c.raises()
-    c.returns("str")
-    c.ensures("matches", lambda r, post: z3.And(M.is_StrV(r), M.re_search(M.sval(p), M.sval(r))))
-
-
 transparent("d42/generation/_regex_generator.py", "RegexGenerator.__init__")
 
 
@@ -173,6 +170,7 @@ def _accept_generator(c):
     c.requires(S.reach(Mx), "member-reachable")
     c.requires(S.satisfiable(Mx), "member-satisfiable")
     c.raises()
+    c.result_is_function_of_args = True
     c.ensures("conforms", lambda r, post: z3.And(S.conforms(Mx, r), S.float_range(r)))
 
 
@@ -228,3 +226,4 @@ def _generate(c):
     c.requires(S.satisfiable(Sx), "satisfiable")
     c.raises(props=("C01",))
     c.ensures("conforms", lambda r, post: S.conforms(Sx, r), ("C01",))
+    c.reproducible()
